@@ -229,6 +229,42 @@ def b01(x):
     return "1" if x else "0"
 
 
+def topology_tie(ctx: Ctx):
+    """the translator's view of AA.xml / NA.xml / PATCHES.xml (gen/topology.py, from which Gen/Topology.lean and every
+    kernel table over it are written) against the objects the real Definition builds — exhaustively: every
+    effective residue definition (atoms in order, coordinates, bond lists in order, dihedrals) and every run-time
+    patch (added atoms, removals, alternative names, dihedrals)"""
+    import gen.topology as gentopo
+    from pdb2pqr import io as pio
+
+    real = pio.get_definitions()
+    mine = gentopo.definitions()
+    if list(real.map) != list(mine.map):
+        ctx.disagree("Definition.map keys", {}, list(mine.map)[:8], list(real.map)[:8])
+        return
+    if list(real.patches) != list(mine.patches):
+        ctx.disagree("Definition.patches keys", {}, list(mine.patches)[:8], list(real.patches)[:8])
+        return
+
+    def atoms_view(m, exact):
+        return [(a.name, (float(a.x), float(a.y), float(a.z)), list(a.bonds)) for a in m.values()]
+
+    for name in real.map:
+        ctx.evaluations += 1
+        r, t = real.map[name], mine.map[name]
+        a, b = atoms_view(r.map, True), atoms_view(t.map, True)
+        if a != b or list(r.dihedrals) != list(t.dihedrals):
+            k = next((i for i, (x, y) in enumerate(zip(a, b)) if x != y), min(len(a), len(b)))
+            ctx.disagree("effective residue definition (translator vs Definition)", {"residue": name}, str(b[k : k + 1] or t.dihedrals), str(a[k : k + 1] or r.dihedrals))
+    for name in real.patches:
+        ctx.evaluations += 1
+        r, t = real.patches[name], mine.patches[name]
+        if atoms_view(r.map, True) != atoms_view(t.map, True) or list(r.remove) != list(t.remove) or dict(r.altnames) != dict(t.altnames) or list(r.dihedrals) != list(t.dihedrals):
+            ctx.disagree("run-time patch (translator vs Definition)", {"patch": name}, str((list(t.map), t.remove, t.altnames)), str((list(r.map), r.remove, r.altnames)))
+    ctx.count("topology-objects-compared", "residue definitions", len(real.map))
+    ctx.count("topology-objects-compared", "patches", len(real.patches))
+
+
 LATE_PATCHES = ("CYX", "CYM", "ASH", "GLH", "LYN", "TYM", "AR0", "HID", "HIE", "HIP", "HSD", "HSE", "HSP")
 
 
@@ -751,6 +787,7 @@ def run(ctx: Ctx):
         "(pre-named protonation states, two chains, neutral termini), plus free waters, an unknown extra atom, --drop-water; every logged method call of the optimisation objects is an evaluation; a case is (kind, mode, target, position)"
     )
     seen_sig = set()
+    topology_tie(ctx)
     big_case(ctx, seen_sig)
     # protonated carboxyl groups (pre-named ASH / GLH) with waters nearby: the Carboxylic objects
     for ci in range(ctx.scale(10, 300)):
